@@ -105,6 +105,8 @@ def runOps : List Db → List J → Except String (List Db × Option String)
     | [J.str "update", i, k, s] => do
       let d ← get i
       let o ← get k
+      -- `_update_db_from_other_db`: `if other_db == self: return` (same connection object)
+      if (← i.toNat) = (← k.toNat) then runOps dbs ops else
       match update d o (← parseCondVal s) with
       | .ok d' => runOps (← set i d') ops
       | .error e => pure (dbs, some (errStr e))
